@@ -434,7 +434,10 @@ def _legacy_first_input(txhex):
     return items
 
 
-GEN_TX_LABELS = ["p2wsh-checksig long script", "p2tr-script long script", "p2sh-p2wsh", "p2sh-multisig", "multisig", "p2tr-key annex", "p2tr-script path=2 annex", "p2wpkh"]
+GEN_TX_LABELS = ["p2wsh-checksig long script", "p2tr-script long script", "p2sh-p2wsh", "p2sh-multisig", "multisig", "p2tr-key annex", "p2tr-script path=2 annex", "p2wpkh",
+                 # multi-signature spends with two different hash types in a two-input transaction: several digests are derived in one run
+                 "p2wsh signatures with hash types 81,01", "p2wsh signatures with hash types 01,81", "p2wsh signatures with hash types 83,02",
+                 "p2sh-multisig signatures with hash types 81,01", "p2sh-p2wsh signatures with hash types 01,03"]
 
 
 def gen_tx_cases(bdir):
